@@ -476,6 +476,9 @@ func (t *tracer) trace(v ssa.Value, path []string) []Origin {
 	case *ssa.Function:
 		return []Origin{{Kind: "func", Val: x, Path: path}}
 	case *ssa.Phi:
+		if isLoopCounter(x) {
+			return []Origin{{Kind: "loopcounter", Val: x, Path: path}}
+		}
 		var out []Origin
 		for i, e := range x.Edges {
 			gs := guardsOfEdge(x.Block().Preds[i], x.Block())
